@@ -51,6 +51,10 @@ var lgTable = []lgEntry{
 	{Rule: "L1", Func: "tensor.(StdEng).prepReduce", Site: "return ", NotAfter: "$ret4 = errors.", Goal: "(%ok && !%useIter)", Props: []string{"C08"}, Why: "iterator-requiring inputs are refused, not folded from raw storage"},
 	{Rule: "L3", Func: "tensor.(StdEng).OptimizedReduce", Site: "$r.E.ReduceFirst(", Goal: "!%at.DataOrder().IsColMajor()", Props: []string{"C08", "C16"}, Why: "the first-axis kernel assumes row-major storage"},
 	{Rule: "L3", Func: "tensor.(StdEng).OptimizedReduce", Site: "$r.E.ReduceLast(", Goal: "!%at.DataOrder().IsColMajor()", Props: []string{"C08", "C16"}, Why: "the last-axis kernel assumes row-major storage"},
+	{Rule: "L3", Func: "tensor.(StdEng).OptimizedReduce", Site: "$r.E.ReduceDefault(", Goal: "!%at.DataOrder().IsColMajor()", Props: []string{"C08", "C16"}, Why: "the middle-axis kernel assumes row-major storage (its siblings refuse column-major; this arm must as well)"},
+	{Rule: "L3", Func: "tensor.(StdEng).Reduce", Site: "$r.E.ReduceDefault(", Goal: "!%at.DataOrder().IsColMajor()", Props: []string{"C08", "C16"}, Why: "the middle-axis kernel assumes row-major storage"},
+	{Rule: "L3", Func: "tensor.(StdEng).Reduce", Site: "$r.E.ReduceFirst(", Goal: "!%at.DataOrder().IsColMajor()", Props: []string{"C08", "C16"}, Why: "the first-axis kernel assumes row-major storage"},
+	{Rule: "L3", Func: "tensor.(StdEng).Reduce", Site: "$r.E.ReduceLast(", Goal: "!%at.DataOrder().IsColMajor()", Props: []string{"C08", "C16"}, Why: "the last-axis kernel assumes row-major storage"},
 	{Rule: "L1", Func: "tensor.(StdEng).argmaxDenseTensor", Site: "$r.E.ArgmaxFlat(", Decides: []string{"$t.RequiresIterator()"}, Props: []string{"C08"}, Why: "the flat arg-reduction scans raw storage"},
 	{Rule: "L1", Func: "tensor.(StdEng).argminDenseTensor", Site: "$r.E.ArgminFlat(", Decides: []string{"$t.RequiresIterator()"}, Props: []string{"C08"}, Why: "the flat arg-reduction scans raw storage"},
 	// ---- BLAS gateways (C09, C16) ----------------------------------------------------------------
